@@ -312,6 +312,50 @@ def _reset():
     pass
 
 
+def _only_memo_caches(ms1, ms0):
+    diff = [x for x in ms1 if x not in ms0]
+    return bool(diff) and all(len(x) == 4 and x[2] == 'cache' for x in diff)
+
+
+def _memo_cache_is_transparent(res, calls):
+    """A memo cache (functools cache) of the package has filled up. That alone is not a dependence on history: a cache of immutable,
+    correctly keyed values changes nothing a caller can see. Decide it by behaviour: every call of the history and of the battery must
+    give, on a fresh parser, the same answer with the caches as they are now and with the caches emptied; and a result handed out with
+    warm caches must not be an object a later equal call hands out again (the host edits the first one)."""
+    import sys
+    tpl = template()
+
+    def clear():
+        for name, mod in list(sys.modules.items()):
+            if name.startswith('smartquery') and mod is not None:
+                for k, v in list(vars(mod).items()):
+                    if callable(v) and hasattr(v, 'cache_clear'):
+                        v.cache_clear()
+    for act in list(calls) + list(BATTERY):
+        warm = World(tpl, None).call(act)
+        warm_again_world = World(tpl, None)
+        if act[0] == 'eval':
+            # hand the first warm result to a host that edits it, then ask again
+            try:
+                p = clone.pristine(tpl)
+                r = p.eval(act[1], {'x9': float('inf'), 'h9': 10 ** 5000} if act[2] == 'fresh' else None, **({} if len(act) < 4 or act[3] is None else {'max_ops_evaluated': act[3]}))
+                if isinstance(r, list):
+                    r.append('HOST')
+                elif isinstance(r, dict):
+                    r['HOST'] = 1
+            except Exception:  # noqa
+                pass
+        warm2 = warm_again_world.call(act)
+        saved = None
+        clear()
+        cold = World(tpl, None).call(act)
+        res.count('memo_cache_confirmation_calls', 3)
+        if warm != cold or warm2 != cold:
+            return False, act, cold, (warm if warm != cold else warm2)
+        # refill as it was (the calls above did that already for this act; earlier acts are replayed by the loop)
+    return True, None, None, None
+
+
 def run_history(res, hist, check_all=False):
     """Replay hist in both worlds. Compares every call when check_all, otherwise the last one."""
     tpl = template()
@@ -364,6 +408,17 @@ def run_history(res, hist, check_all=False):
                               {'history': [list(map(_j, a)) for a in hist] + [list(map(_j, act))], 'expected': repr(rb)[:400], 'observed': repr(ra)[:400]})
                 return None, False
     ms1 = module_state()
+    if ms1 != ms0 and _only_memo_caches(ms1, ms0):
+        okc, act_c, cold, warm = _memo_cache_is_transparent(res, [a for a in hist if a[0] == 'eval' and a[2] in ('fresh', 'none', 'omitted')])
+        _restore_module_state()
+        if okc:
+            res.count('memo_cache_filled_without_visible_effect')
+            ms1 = ms0
+        else:
+            res.violation(f'module-state:memo-cache-changes-answers:{_sig(act_c)}', 'a memo cache of the package that an earlier call filled changes the answer of a later '
+                          'call (compared with the same call after emptying the caches)',
+                          {'history': [list(map(_j, a)) for a in hist] + [list(map(_j, act_c))], 'expected': repr(cold)[:400], 'observed': repr(warm)[:400]})
+            return None, False
     if ms1 != ms0:
         diff = [x for x in ms1 if x not in ms0][:3]
         res.violation(f'module-state:{diff[0][0] if diff else "?"}:{diff[0][1] if diff else "?"}',
@@ -422,6 +477,11 @@ def builtin_sweep(res):
                 res.violation(f'repeat:{f}', 'the same call gives a different answer the second time (after the host edited the first result)',
                               {'history': [['eval', src, 'fresh', None]] * 2, 'expected': repr(outs[0])[:300], 'observed': repr(outs[1])[:300]})
             ms1 = module_state()
+            if ms1 != ms0 and _only_memo_caches(ms1, ms0):
+                # the repeat comparison above already ran with the cache warm (second attempt) and after the host edit: transparent
+                _restore_module_state()
+                res.count('memo_cache_filled_without_visible_effect')
+                ms1 = ms0
             if ms1 != ms0:
                 diff = [x for x in ms1 if x not in ms0][:3]
                 res.violation(f'module-state:{diff[0][0] if diff else "?"}:{diff[0][1] if diff else "?"}',
